@@ -194,6 +194,34 @@ func add(name string, m *mval, v core.Value) *entry {
 	return &alpha[len(alpha)-1]
 }
 
+// show prints a model value with the representation of every leaf
+func show(m *mval) string {
+	switch m.class {
+	case clBool:
+		return fmt.Sprint(m.b)
+	case clNum:
+		if m.n == nil {
+			return fmt.Sprintf("inf%d<%s>", m.inf, m.kind)
+		}
+		return m.n.RatString() + "<" + m.kind + ">"
+	case clStr:
+		return fmt.Sprintf("%q<%s>", m.s, m.kind)
+	case clDate:
+		return fmt.Sprint(m.d)
+	}
+	var parts []string
+	for _, x := range m.list {
+		parts = append(parts, show(x))
+	}
+	for _, e := range m.named {
+		parts = append(parts, show(e.k)+": "+show(e.v))
+	}
+	if m.kind == "record" {
+		return "[" + strings.Join(parts, ", ") + "]"
+	}
+	return "#(" + strings.Join(parts, ", ") + ")"
+}
+
 // number entries -----------------------------------------------------------
 
 func numModel(kind string, r *big.Rat) *mval { return &mval{class: clNum, kind: kind, n: r} }
@@ -479,7 +507,8 @@ func buildAlphabet(c *lib.Ctx) {
 					continue
 				}
 				k++
-				addObj(fmt.Sprintf("gen%d", k), (li+ni)%4 == 3, l, ns)
+				e := addObj("", (li+ni)%4 == 3, l, ns)
+				e.name = fmt.Sprintf("gen%d:%s", k, show(e.m))
 			}
 		}
 	}
@@ -529,14 +558,15 @@ func reprDiffs(a, b *mval, out map[string]bool) {
 	}
 }
 
-// hashClass: "int64-dnum-hash" iff the two (model-equal) values differ in
-// representation only by SuInt64 versus SuDnum for integers outside the smi
-// range (possibly nested in objects: object/record wrappers do not matter).
+// hashClass: "int64-dnum-hash" iff the two (model-equal) values contain, at
+// corresponding leaves, the same integer outside the smi range once as
+// SuInt64 and once as SuDnum (possibly nested in objects). Other
+// representation differences (smi/dnum, str/concat/except, object/record)
+// are judged on their own by the direct pairs of the alphabet.
 func hashClass(a, b *mval) string {
 	d := map[string]bool{}
 	reprDiffs(a, b, d)
-	delete(d, "object/record")
-	if len(d) == 1 && d["dnum/int64:outside-smi"] {
+	if d["dnum/int64:outside-smi"] {
 		return "int64-dnum-hash"
 	}
 	return ""
